@@ -808,9 +808,18 @@ def _process_step_result_tick(
             if retries is not None:
                 _next_params = inspect.signature(retries.next).parameters
                 _seed_kwarg = {"seed": jitter_seed} if "seed" in _next_params else {}
-                delay = retries.next(
-                    elapsed_time, failures, result.exception, **_seed_kwarg
-                )
+                try:
+                    delay = retries.next(
+                        elapsed_time, failures, result.exception, **_seed_kwarg
+                    )
+                except Exception:
+                    # A policy that raises cannot grant a retry: the step's own
+                    # failure takes the exhausted path, so the run still ends
+                    # with a terminal event.
+                    logger.exception(
+                        f"Retry policy of step {tick.step_name} raised; not retrying"
+                    )
+                    delay = None
             else:
                 delay = None
             if delay is not None:
